@@ -123,7 +123,7 @@ class World:
             return "Ok"
         if act == "Copy":
             src = self.obj(a["x"])
-            k = self.pick(4)
+            k = self.pick(4) if len(src) else self.pick(2)     # an empty Vector is untyped, hence not a boolean mask
             if k == 0:
                 v = src.copy()
             elif k == 1:
@@ -278,7 +278,7 @@ class World:
             if cs == srcs and t in self.tab:
                 parent = t
         forms = ["Table([..])", "Vector([..])"]
-        if len(objs) == 2 and len({(v.schema().kind if v.schema() is not None else None) for v in objs}) == 1:
+        if len(objs) == 2 and all(v.schema() is not None for v in objs) and len({v.schema().kind for v in objs}) == 1:
             forms.append("v1 >> v2")        # `>>` refuses vectors of different typesafe kinds (precondition)
         if parent is not None:
             forms += ["t[:]", "t[all-True mask]", "t.copy()"]
@@ -382,7 +382,9 @@ def compare(w, post, last_act=None, strict_registry=True):
             yield ("contents" + where, {"object": o, "values": got}, exp)
         sch = v.schema()
         gk = None if sch is None else (sch.kind.__name__, bool(sch.nullable))
-        if gk != (kind, post["nullable"][o - 1]):
+        if sch is None and not exp:
+            pass        # an empty vector that was never typed has no dtype to compare
+        elif gk != (kind, post["nullable"][o - 1]):
             yield ("dtype" + where, {"object": o, "dtype": gk}, [kind, post["nullable"][o - 1]])
         nm = post["name"][o - 1]
         if v.name != (None if nm == "-" else nm):
@@ -393,6 +395,8 @@ def compare(w, post, last_act=None, strict_registry=True):
             if a < b:
                 same_spec = post["store"][a - 1] == post["store"][b - 1]
                 same_py = py[a]._underlying is py[b]._underlying
+                if len(py[a]._underlying) == 0 and len(py[b]._underlying) == 0:
+                    continue    # CPython interns the empty tuple: identity says nothing about empty storage
                 if same_spec != same_py:
                     yield ("sharing", {"objects": [a, b], "share": same_py}, same_spec)
     # --- tables: structure, length, names, rectangularity, row views
@@ -520,8 +524,11 @@ def replay_case(case, variant):
                     # a shared write that is performed copy-on-write is allowed as long as it stays
                     # local; the histories diverge here, so nothing further is compared
                     fails.append(("note_cow_instead_of_refusal", k, res, a["res"], list(w.forms)))
-                elif a["a"] == "NewTable":
+                elif a["a"] == "NewTable" or (a["a"] == "SetAttr" and a["res"] == "Err"):
+                    # a column / table of the wrong length was accepted (or a right one rejected)
                     fails.append(("ragged_outcome", k, res, a["res"], list(w.forms)))
+                elif a["a"] == "SetAttr":
+                    fails.append(("setattr_error", k, res, a["res"], list(w.forms)))
                 elif a["a"] == "Lookup":
                     fails.append(("lookup", k, res, a["res"], list(w.forms)))
                 else:
